@@ -28,6 +28,19 @@ def check(item):
             continue
         except Exception as e:  # noqa: BLE001  (C07's business; reported there)
             continue
+        # the same nested fields spelled as a flat list of dotted names / as dotted keys: the same query, to the letter
+        if cfgd["nested_fields"] and not R.leafless_levels(cfgd["nested_fields"]):
+            flat = sorted(R.spec_paths(cfgd["nested_fields"]))
+            for how, spelling in (("a list of dotted names", flat), ("dotted keys", {k: None for k in reversed(flat)})):
+                n += 1
+                try:
+                    js2 = ElasticsearchQueryBuilder(**dict(cfgd, nested_fields=spelling))(t)
+                except Exception as e:  # noqa: BLE001
+                    js2 = "raised %s" % type(e).__name__
+                if json.dumps(js2, sort_keys=True) != json.dumps(js, sort_keys=True):
+                    fails.append({"input": q, "tree": kind, "config": ci, "signature": "spec-spelling",
+                                  "observation": "nested fields given as %s %r: %s, as %r: %s" % (how, spelling, json.dumps(js2)[:200], cfgd["nested_fields"], json.dumps(js)[:200])})
+                    break
         atoms = []
         R.tree_atoms(t, [], "text", atoms)
         try:
